@@ -11,8 +11,13 @@ Modelling decisions (see DESIGN.md 2.2/2.3):
   exit and is lost if the process is killed first;
 * terminate() is synchronous: the victim never performs another simulated side
   effect;
+* descriptors are a finite resource (optional, Net.fd_limit): every open connection handle, every
+  queue (2) and every started Process object that is still referenced (its sentinel) counts
+  against the limit of the process that owns it; creating one more beyond the limit raises
+  OSError(EMFILE) - after a garbage collection, as the real collector would have run by then;
 * NOT modelled: copy-on-write isolation of the children's memory.
 """
+import gc
 import pickle
 import weakref
 import queue as _queue
@@ -41,11 +46,33 @@ class Net(object):
         self.kernel = kernel
         self.tape = tape
         self.conns = _WeakList()
-        self.queues = []
-        self.procs = []
+        self.queues = _WeakList()           # queue cores (alive while some handle is)
+        self.queue_handles = _WeakList()    # per-process handles on them (descriptor accounting)
+        self.procs = []             # one record per Process object ever created (creation order)
+        self.proc_objs = _WeakList()
+        self.fd_limit = None        # descriptors one process may hold (None: unlimited)
+        self.fd_peak = 0
         self.stats = {"q_put": 0, "q_lost": 0, "q_delayed": 0, "pipe_send": 0, "started": 0,
                       "terminated": 0, "pickled_exceptions": 0, "slow_starts": 0}
         self.slow_start = False     # fault: fork/exec of a child may take (virtual) time in the parent
+
+    def fds_of(self, task):
+        n = sum(1 for c in self.conns if c.open and c.owner is task)
+        n += 2 * sum(1 for q in self.queue_handles if q.owner is task and q.open)
+        n += sum(1 for p in self.proc_objs if p.parent is task and p.task is not None and not p.closed)
+        return n
+
+    def need_fds(self, n):
+        """called before descriptors are created in the current task"""
+        me = self.kernel.me()
+        have = self.fds_of(me)
+        if self.fd_limit is not None and have + n > self.fd_limit:
+            gc.collect()        # whatever only the collector can free is freed by now in a real process
+            have = self.fds_of(me)
+            if have + n > self.fd_limit:
+                self.stats["emfile"] = self.stats.get("emfile", 0) + 1
+                raise OSError(24, "Too many open files")
+        self.fd_peak = max(self.fd_peak, have + n)
 
     def factories(self):
         net = self
@@ -57,6 +84,7 @@ class Net(object):
             return SimQueue(net)
 
         def Pipe(duplex=True):
+            net.need_fds(2)
             ca, cb = _Chan(), _Chan()
             me = net.kernel.me()
             a = SimConn(net, ca, cb, me)
@@ -66,6 +94,46 @@ class Net(object):
 
 
 class SimQueue(object):
+    """a process's handle on a queue (the parent's is created by Queue(); a started child gets its
+    own duplicate, like the connection handles): the descriptors of the underlying pipe are held by
+    a process for as long as ITS handle object is referenced"""
+
+    def __init__(self, net, core=None, owner=None):
+        self.net = net
+        if core is None:
+            net.need_fds(2)
+            core = _QueueCore(net)
+        self.core = core
+        self.owner = owner if owner is not None else net.kernel.me()
+        self.open = True
+        net.queue_handles.append(self)
+
+    def _dup(self, owner):
+        return SimQueue(self.net, self.core, owner)
+
+    def put(self, obj, block=True, timeout=None):
+        return self.core.put(obj, block, timeout)
+
+    def get(self, block=True, timeout=None):
+        return self.core.get(block, timeout)
+
+    def get_nowait(self):
+        return self.core.get(block=False)
+
+    def empty(self):
+        return self.core.empty()
+
+    def close(self):
+        self.open = False
+
+    def join_thread(self):
+        pass
+
+    def cancel_join_thread(self):
+        pass
+
+
+class _QueueCore(object):
     def __init__(self, net):
         self.net = net
         self.items = []      # [visible_at_time, bytes, owner task, lost, flushed]
@@ -225,6 +293,15 @@ class SimConn(object):
         return id(self) & 0xFFFF
 
 
+class _ProcRec(object):
+    """what stays of a Process object for the harness (which member it was), without keeping it alive"""
+    __slots__ = ("name", "task")
+
+    def __init__(self, name):
+        self.name = name
+        self.task = None
+
+
 class SimProcess(object):
     _pid = [1000]
 
@@ -235,10 +312,14 @@ class SimProcess(object):
         self._args = tuple(args)
         self._kwargs = dict(kwargs)
         self.task = None
+        self.parent = None
+        self.closed = False
         SimProcess._pid[0] += 1
         self.pid = None
         self.daemon = False
-        net.procs.append(self)
+        self.rec = _ProcRec(name)
+        net.procs.append(self.rec)
+        net.proc_objs.append(self)
 
     def start(self):
         k = self.net.kernel
@@ -246,13 +327,18 @@ class SimProcess(object):
             return
         assert self.task is None, "cannot start a process twice"
         parent = k.me()
+        self.net.need_fds(1)        # the sentinel, held as long as this object is
+        self.parent = parent
         box = {}
 
-        def body():
-            self._child_handles = box.pop("handles")       # keeps the inherited descriptors open
+        def body(box=box):
+            # (no reference to the Process object: the parent may drop it while the child runs)
+            handles = box.pop("handles")                    # keeps the inherited descriptors open
             target, args, kwargs = box.pop("call")
             target(*args, **kwargs)
+            del handles
         self.task = k.spawn(self.name, body)
+        self.rec.task = self.task
         self.pid = len(self.net.procs) + 1000
         # fork: the child gets its own duplicate of every descriptor its parent holds ...
         dups = {}
@@ -260,7 +346,8 @@ class SimProcess(object):
             if c.open and c.owner is parent:
                 dups[id(c)] = c._dup(self.task)
         # ... and the handles among its arguments are the child's duplicates
-        args = tuple(dups.get(id(a), a) if isinstance(a, SimConn) else a for a in self._args)
+        args = tuple(dups.get(id(a), a) if isinstance(a, SimConn) else
+                     (a._dup(self.task) if isinstance(a, SimQueue) else a) for a in self._args)
         box["handles"] = list(dups.values())
         box["call"] = (self._target, args, self._kwargs)
         # like multiprocessing.Process.start(): do not keep the arguments alive in the parent
@@ -302,6 +389,9 @@ class SimProcess(object):
         if k.is_dead() or self.task is None:
             return
         k.block_until(lambda: not self.task.alive(), "process.join", timeout)
+
+    def close(self):
+        self.closed = True
 
     @property
     def exitcode(self):
